@@ -358,6 +358,7 @@ impl Check for C14 {
     fn shard(&self, ctx: &mut ShardCtx) {
         proc::require_binaries();
         assert!(playground::DERIVED, "wasm/src/lib.rs no longer has the shape the derivation expects (harness/build.rs)");
+        ctx.max_shrink_iters = 250; // every evaluation runs several renderings / subprocesses
         let t = ctx.tier;
         crate::prop::run(ctx, "cli-dev", t.pick(90, 1_400), prog_strategy(), |ctx, spec| {
             check_cli(ctx, spec, &[Build::Debug])
